@@ -91,6 +91,15 @@ func Bases(tier string) []*T {
 	var out []*T
 	out = append(out, all...)
 	out = append(out, S0(), Struct())
+	// named twins of every basic kind: they must encode exactly like their underlying kind
+	var namedLeaves []*T
+	for _, k := range AllLeaves {
+		if n, ok := NamedLeafNames[k]; ok {
+			namedLeaves = append(namedLeaves, &T{K: k, Named: n})
+		}
+	}
+	out = append(out, namedLeaves...)
+	out = append(out, Grow(Cfg{}, namedLeaves, keys[:1], true)...)
 	d1all := Grow(Cfg{}, all, keys, true)
 	out = append(out, d1all...)
 	d1 := Grow(Cfg{}, rep, []*T{Leaf(KString)}, true)
@@ -195,3 +204,7 @@ func Recursive() []Item {
 	}
 	return out
 }
+
+// NamedLeafNames maps a basic kind to the registered name of its named twin (package gen).
+var NamedLeafNames = map[Kind]string{KBool: "gen.NBool", KInt: "gen.NInt", KInt8: "gen.NInt8", KInt16: "gen.NInt16", KInt32: "gen.NInt32", KInt64: "gen.NInt64",
+	KUint: "gen.NUint", KUint8: "gen.NUint8", KUint16: "gen.NUint16", KUint32: "gen.NUint32", KUint64: "gen.NUint64", KFloat32: "gen.NFloat32", KFloat64: "gen.NFloat64", KString: "gen.NString"}
